@@ -9,6 +9,7 @@ import (
 	"strings"
 
 	ledger "github.com/formancehq/ledger/internal"
+	"github.com/formancehq/stack/libs/go-libs/metadata"
 )
 
 // ---------------------------------------------------------------------------
@@ -214,6 +215,88 @@ func (s *Sim) checkHashDependence(li *ledgerInst, e *Entry, lg ledger.Log, prev 
 	l5 := lg
 	l5.Data = map[string]any{"perturbed": e.Idx}
 	differs("data", l5, prev)
+	// "its own content": every part of the payload, one at a time
+	copyTx := func(t *ledger.Transaction) *ledger.Transaction {
+		c := *t
+		c.Postings = append(ledger.Postings(nil), t.Postings...)
+		c.Metadata = metadata.Metadata{}
+		for k, v := range t.Metadata {
+			c.Metadata[k] = v
+		}
+		if t.ID != nil {
+			c.ID = new(big.Int).Set(t.ID)
+		}
+		return &c
+	}
+	withTx := func(t *ledger.Transaction, rebuild func(*ledger.Transaction) any) {
+		if t == nil {
+			return
+		}
+		variants := map[string]func(c *ledger.Transaction){
+			"transaction-id":        func(c *ledger.Transaction) { c.ID = new(big.Int).Add(c.ID, big.NewInt(1)) },
+			"transaction-reference": func(c *ledger.Transaction) { c.Reference += "x" },
+			"transaction-timestamp": func(c *ledger.Transaction) { c.Timestamp = c.Timestamp.Add(1000) },
+			"transaction-metadata":  func(c *ledger.Transaction) { c.Metadata["\x00perturbed"] = "1" },
+		}
+		if len(t.Postings) > 0 {
+			variants["posting-amount"] = func(c *ledger.Transaction) {
+				c.Postings[0].Amount = new(big.Int).Add(c.Postings[0].Amount, big.NewInt(1))
+			}
+			variants["posting-account"] = func(c *ledger.Transaction) { c.Postings[len(c.Postings)-1].Destination += "x" }
+		}
+		names := make([]string, 0, len(variants))
+		for k := range variants {
+			names = append(names, k)
+		}
+		sort.Strings(names)
+		for _, n := range names {
+			c := copyTx(t)
+			variants[n](c)
+			lx := lg
+			lx.Data = rebuild(c)
+			differs(n, lx, prev)
+		}
+	}
+	switch p := lg.Data.(type) {
+	case ledger.NewTransactionLogPayload:
+		withTx(p.Transaction, func(c *ledger.Transaction) any {
+			return ledger.NewTransactionLogPayload{Transaction: c, AccountMetadata: p.AccountMetadata}
+		})
+		lx := lg
+		am := ledger.AccountMetadata{"\x00perturbed": {"k": "v"}}
+		for k, v := range p.AccountMetadata {
+			am[k] = v
+		}
+		lx.Data = ledger.NewTransactionLogPayload{Transaction: p.Transaction, AccountMetadata: am}
+		differs("account-metadata", lx, prev)
+	case ledger.RevertedTransactionLogPayload:
+		withTx(p.RevertTransaction, func(c *ledger.Transaction) any {
+			return ledger.RevertedTransactionLogPayload{RevertedTransactionID: p.RevertedTransactionID, RevertTransaction: c}
+		})
+		if p.RevertedTransactionID != nil {
+			lx := lg
+			lx.Data = ledger.RevertedTransactionLogPayload{RevertedTransactionID: new(big.Int).Add(p.RevertedTransactionID, big.NewInt(1)), RevertTransaction: p.RevertTransaction}
+			differs("reverted-transaction-id", lx, prev)
+		}
+	case ledger.SetMetadataLogPayload:
+		lx := lg
+		md := metadata.Metadata{"\x00perturbed": "1"}
+		for k, v := range p.Metadata {
+			md[k] = v
+		}
+		lx.Data = ledger.SetMetadataLogPayload{TargetType: p.TargetType, TargetID: p.TargetID, Metadata: md}
+		differs("metadata", lx, prev)
+		ly := lg
+		ly.Data = ledger.SetMetadataLogPayload{TargetType: p.TargetType, TargetID: fmt.Sprint(p.TargetID) + "9", Metadata: p.Metadata}
+		differs("target-id", ly, prev)
+	case ledger.DeleteMetadataLogPayload:
+		lx := lg
+		lx.Data = ledger.DeleteMetadataLogPayload{TargetType: p.TargetType, TargetID: p.TargetID, Key: p.Key + "x"}
+		differs("key", lx, prev)
+		ly := lg
+		ly.Data = ledger.DeleteMetadataLogPayload{TargetType: p.TargetType, TargetID: fmt.Sprint(p.TargetID) + "9", Key: p.Key}
+		differs("target-id", ly, prev)
+	}
 }
 
 // ---------------------------------------------------------------------------
@@ -627,8 +710,14 @@ func (s *Sim) onPublish(p *PubRecord) {
 			if d := txDiff(revert, e.Tx); d != "" {
 				s.violate("C16", "event-differs-from-entry", fmt.Sprintf("%s: REVERTED_TRANSACTION: revertTransaction differs from entry %d: %s", name, e.Idx, d), "type=REVERTED_TRANSACTION")
 			}
-			if o := c.byTxID[reverted.ID.String()]; o != nil && o.Tx != nil && !postingsEqual(o.Tx.Postings, reverted.Postings) {
-				s.violate("C16", "event-differs-from-entry", fmt.Sprintf("%s: REVERTED_TRANSACTION: revertedTransaction %s carries postings %s, the log has %s", name, reverted.ID, fmtPostings(reverted.Postings), fmtPostings(o.Tx.Postings)), "type=REVERTED_TRANSACTION")
+			if o := c.byTxID[reverted.ID.String()]; o != nil && o.Tx != nil {
+				// (its metadata may have been changed since by metadata writes; the rest may not)
+				if !postingsEqual(o.Tx.Postings, reverted.Postings) {
+					s.violate("C16", "event-differs-from-entry", fmt.Sprintf("%s: REVERTED_TRANSACTION: revertedTransaction %s carries postings %s, the log has %s", name, reverted.ID, fmtPostings(reverted.Postings), fmtPostings(o.Tx.Postings)), "type=REVERTED_TRANSACTION")
+				}
+				if o.Tx.Reference != reverted.Reference || !o.Tx.Timestamp.Equal(reverted.Timestamp) {
+					s.violate("C16", "event-differs-from-entry", fmt.Sprintf("%s: REVERTED_TRANSACTION: revertedTransaction %s carries reference %q / timestamp %s, the log has %q / %s", name, reverted.ID, reverted.Reference, reverted.Timestamp.Format(ledger.DateFormat), o.Tx.Reference, o.Tx.Timestamp.Format(ledger.DateFormat)), "type=REVERTED_TRANSACTION", "field=reference-or-timestamp")
+				}
 			}
 			return
 		}
